@@ -394,6 +394,11 @@ def check(model: Model, run: Run) -> None:
     for mn, m in model.modules.items():
         cls_names = {n.name for n in m.tree.body if isinstance(n, ast.ClassDef)}
         for fq, construct, node, why in shared_state_writes(mn, m.tree, cls_names):
+            if (fq, construct) in REVIEWED and not reviewed_form_holds(model, fq, node):
+                run.ob("I3-no-shared-state-writes", False, {"function": fq, "construct": construct})
+                run.fail(Finding("I3-no-shared-state-writes", fq, (construct + "|key")[:80], f"{fq.split('sansldap.')[-1]} memoises the pseudo member under a key that is not the value it was asked for "
+                                 f"(`{norm(node)[:60]}`): two different values then share one member for the whole process, whichever session saw its value first", model.loc(mn, node)))
+                continue
             if (fq, construct) in REVIEWED:
                 run.note(f"reviewed exception: {fq}: {construct}: {REVIEWED[(fq, construct)]}")
                 run.ob("I3-no-shared-state-writes", True, {"function": fq, "construct": construct, "reviewed": REVIEWED[(fq, construct)]})
@@ -646,6 +651,23 @@ def registration_guarded(model: Model, run: Run, rule: str = "I6-registration-gu
         run.ob(rule, ok, {"method": fi.name})
         if not ok:
             run.fail(Finding(rule, fi.qualname, why[:80], f"{fi.name}: {why}", model.loc(SESSION_MOD, fi.node)))
+
+
+def reviewed_form_holds(model: Model, fq: str, node: ast.AST) -> bool:
+    """the reviewed memo of LDAPResultCode._missing_ is `cls._value2member_map_.setdefault(<the value parameter>, <member>)` with
+    the member's _value_ set from the same parameter: only then is the cache entry what a fresh conversion would produce"""
+    fi = model.functions.get(fq)
+    if fi is None or isinstance(fi.node, ast.Lambda):
+        return False
+    ps = fi.params()
+    vparam = ps[1] if len(ps) > 1 else None
+    call = node if isinstance(node, ast.Call) else None
+    if call is None or vparam is None or not call.args or not (isinstance(call.args[0], ast.Name) and call.args[0].id == vparam):
+        return False
+    if any(isinstance(x, ast.Name) and x.id == vparam and isinstance(x.ctx, ast.Store) for x in walk_no_nested(fi.node)):
+        return False
+    vals = [a.value for a in walk_no_nested(fi.node) if isinstance(a, ast.Assign) and any(isinstance(t_, ast.Attribute) and t_.attr == "_value_" for t_ in a.targets)]
+    return bool(vals) and all(isinstance(v, ast.Name) and v.id == vparam for v in vals)
 
 
 def registrations_only_by_register(model: Model, run: Run, rule: str = "I9-choices-change-only-by-registration") -> None:
